@@ -38,7 +38,8 @@ CHECK = {'level': 'exploration',
          'length >= 3 that is not a power of two; for subset cases additionally >= 2 queried/updated leaves lying on both sides of the root '
          'split; for update histories: such a length, at least one value returning to an earlier value of its position and the proof of at '
          'least one leaf that no update named checked afterwards. Distinct by digest of (kind, size, positions / drawn parameters / steps)'
-         ' Plus TestResultsOutliveLaterCalls: histories of GenerateProof / GenerateRightWitness / Root / AppendPath / Append / Update on one tree object in which EVERY result handed out is kept with a deep copy; after every later operation all held results must be unchanged and held proofs and witnesses must still verify against the root they were generated for (non-trivial = at least two proofs held).',
+         ' Plus TestResultsOutliveLaterCalls: histories of GenerateProof / GenerateRightWitness / Root / AppendPath / Append / Update on one tree object in which EVERY result handed out is kept with a deep copy; after every later operation all held results must be unchanged and held proofs and witnesses must still verify against the root they were generated for (non-trivial = at least two proofs held).'
+         " Plus TestConcurrentIndependentTrees: 8 goroutines computing roots, proofs and witnesses of independent trees of different sizes at the same time; every result must equal the sequential model's (pure computations: no schedule can make a correct implementation fail).",
  'level_text': 'Differential test of the regular Merkle tree against a naive LIP-0031 model: exhaustive over all list lengths up to 260 '
                '(2100 thorough) for root/append path/size/reload/append prediction, over all witness indexes and structured proof and update '
                'index sets for every size in a smaller range, rapid-sampled beyond (sizes around powers of two up to 2^13, random subsets, '
